@@ -25,7 +25,7 @@ _RE = re.compile(r'<<"(CEX|BEH)", "(\w+)", (".*")>>\s*$')
 def _cfg(name, cap, maxcmds, maxruns, invariants, view=True):
     with open(os.path.join(SPEC, name), "w") as f:
         f.write("SPECIFICATION Spec\nCONSTANTS\n  Entries <- EntriesDef\n  Final <- FinalDef\n  BpRules <- BpRulesDef\n"
-                "  Cap = %d\n  MaxCmds = %d\n  MaxRuns = %d\n%sINVARIANTS %s\nCHECK_DEADLOCK FALSE\n"
+                "  Cap = %d\n  MaxCmds = %d\n  MaxRuns = %d\n  AllowBadRun = FALSE\n%sINVARIANTS %s\nCHECK_DEADLOCK FALSE\n"
                 % (cap, maxcmds, maxruns, "VIEW view\n" if view else "", " ".join(invariants)))
 
 
@@ -105,8 +105,8 @@ def run(ctx):
             name = "MC_Debugger_scr_run.cfg"
             with open(os.path.join(SPEC, name), "w") as f:
                 f.write("SPECIFICATION Spec\nCONSTANTS\n  Entries <- EntriesDef\n  Final <- FinalDef\n  BpRules <- BpRulesDef\n"
-                        "  Cap = %d\n  MaxCmds = %d\n  MaxRuns = %d\nCONSTRAINT FollowsScript\nINVARIANTS EmitScripted EmitStuck InvOnePerContinue InvNothingWhileWaiting\nCHECK_DEADLOCK FALSE\n"
-                        % (cap, len(script), max(1, sum(1 for c in script if c == "run"))))
+                        "  Cap = %d\n  MaxCmds = %d\n  MaxRuns = %d\n  AllowBadRun = TRUE\nCONSTRAINT FollowsScript\nINVARIANTS EmitScripted EmitStuck InvOnePerContinue InvNothingWhileWaiting\nCHECK_DEADLOCK FALSE\n"
+                        % (cap, len(script), max(1, sum(1 for c in script if c in ("run", "runbad")))))
             try:
                 # simulation: random interleavings of the fixed script (the constraint keeps the controller on it)
                 r = tlc("MC_Debugger", cfg=name, workdir=ctx.work, outname="dbg_scr%d_%d.out" % (si, cap), workers=1, timeout=600, xmx="4g", env={"ENTRIES": sf},
@@ -146,6 +146,8 @@ SCRIPTS = [
     ["add:a", "run", "cont", "cont", "recv", "recv", "cont", "recv"],                     # continues issued ahead of the receives
     ["add:a", "run", "recv", "cont", "recv", "run", "recv", "cont", "recv"],              # restart while the parser waits at its last breakpoint
     ["add:b", "run", "recv", "run", "recv", "cont", "recv", "cont", "recv"],              # restart while the parser waits at its first breakpoint
+    ["add:a", "runbad", "run", "run", "recv", "cont", "recv", "cont", "recv"],            # a session that panics (undefined rule): the next run fails, the one after works
+    ["add:a", "run", "recv", "runbad", "recv", "run", "cont", "run", "recv", "cont", "recv"],
 ]
 
 
